@@ -467,6 +467,8 @@ func prepareCall(fr *frame, call *ssa.CallCommon) (fn value, args []value) {
 		}
 		if nf := errorMethod(recv.t); nf != nil && call.Method.Name() == "Error" {
 			fn = nf
+		} else if nf := bodyMethod(recv.t, call.Method.Name()); nf != nil {
+			fn = nf
 		} else if f := lookupMethod(fr.i, recv.t, call.Method); f == nil {
 			// Unreachable in well-typed programs.
 			panic(fmt.Sprintf("method set for dynamic type %v does not contain %s", recv.t, call.Method))
